@@ -1,5 +1,6 @@
 import Clikit.Lemmas.Sgr
 import Clikit.Lemmas.Markup
+import Clikit.Lemmas.Lex
 import Clikit.Lemmas.Output
 /-!
 # C11 - decoration changes only the look: same text, right codes, none when plain
@@ -87,6 +88,38 @@ theorem plain_no_escape (rv : Resolver) (toks : List Tok) (st st' : Stack) (o : 
     rw [e] at hm
     obtain ⟨t, ht, hl, _⟩ := texts_mem rv toks ESC hm
     exact hf t ht hl
+
+/-- The same at the level of whole messages and of the formatter entry points
+(`AnsiFormatter.format` vs `PlainFormatter.format` / `remove_format`): for every message without
+ESC and without backslash (backslash-escaped tags are outside the property), every resolver and
+every initial stack, stripping the decorated rendering gives the plain rendering - and both fail
+together. -/
+theorem message_strip_eq_plain (rv : Resolver) (st : Stack) (msg : Str)
+    (he : ESC ∉ msg) (hb : '\\' ∉ msg) :
+    stripRes (ansiFormat rv st msg none) = plainFormat rv st msg := by
+  simp only [ansiFormat, plainFormat]
+  rw [colorize_noBs _ _ _ _ hb, colorize_noBs _ _ _ _ hb]
+  split
+  · exact render_strip rv _ st (escFree_pieces msg he _)
+  · simp [stripRes, stripAnsi_text' msg he]
+
+/-- A message whose pieces are balanced: plain rendering = stripped decorated rendering = the
+tag-stripped text (`texts` of its pieces), never an error, stack unchanged; a message without
+any tag is its own rendering in both modes. -/
+theorem message_balanced (rv : Resolver) (st : Stack) (msg : Str) (he : ESC ∉ msg) (hb : '\\' ∉ msg)
+    (hbal : Balanced rv (seg (lastOr ' ' msg) (lex msg))) :
+    plainFormat rv st msg =
+      .ok (if hasTag (lex msg) then texts rv (seg (lastOr ' ' msg) (lex msg)) else msg, st) ∧
+    stripRes (ansiFormat rv st msg none) =
+      .ok (if hasTag (lex msg) then texts rv (seg (lastOr ' ' msg) (lex msg)) else msg, st) := by
+  have h1 : plainFormat rv st msg =
+      .ok (if hasTag (lex msg) then texts rv (seg (lastOr ' ' msg) (lex msg)) else msg, st) := by
+    simp only [plainFormat]
+    rw [colorize_noBs _ _ _ _ hb]
+    split
+    · exact (balanced_text rv _ hbal st).1
+    · rfl
+  exact ⟨h1, by rw [message_strip_eq_plain rv st msg he hb, h1]⟩
 
 /-- **Every line-writing method emits the text followed by exactly one newline** (when the gate
 lets it through): `write_line` writes what `write` writes plus one `"\n"`; `write_line_raw`
